@@ -294,12 +294,14 @@ impl<'a, T> ChordsV2<'a, T> {
         }
         self.ticks_until_next_state_change = 0;
         self.prev_active_layer = active_layer;
-        debug_assert!(self.queue.capacity() < 255);
-        self.prev_queue_len = self.queue.len() as u8;
 
         self.drain_virtual_keys(drainq);
         self.drain_releases(drainq);
         self.process_presses(active_layer, drainq);
+        // Remember the length after processing. With the length from before, an event that
+        // arrives right after one was drained goes unnoticed and waits for the countdown.
+        debug_assert!(self.queue.capacity() < 255);
+        self.prev_queue_len = self.queue.len() as u8;
     }
 
     fn drain_virtual_keys(&mut self, drainq: &mut SmolQueue) {
